@@ -47,6 +47,12 @@ pub struct PolicyM {
     pub apply_range: Vec<(Ipv4Addr, Ipv4Addr)>,
     pub apply_address: Vec<Ipv4Addr>,
     pub policies: Vec<PolicyM>,
+    /// `apply-max-lease`, seconds
+    #[serde(default)]
+    pub apply_max_lease: Option<u64>,
+    /// other `apply-<option>: <yaml value>` rules, written verbatim
+    #[serde(default)]
+    pub apply_other: Vec<(String, String)>,
 }
 
 impl PolicyM {
@@ -142,6 +148,12 @@ impl PolicyM {
         for a in self.apply_address.iter().take(1) {
             line(out, format!("apply-address: {}", a));
         }
+        if let Some(m) = self.apply_max_lease {
+            line(out, format!("apply-max-lease: {}", m));
+        }
+        for (k, v) in &self.apply_other {
+            line(out, format!("apply-{}: {}", k, v));
+        }
         if !self.policies.is_empty() {
             line(out, "policies:".to_string());
             for p in &self.policies {
@@ -166,6 +178,18 @@ fn eval_policies(ps: &[PolicyM], chaddr: &[u8], server_ip: Ipv4Addr, inherited: 
         }
     }
     None
+}
+
+/// The `apply-max-lease` in force for a client: policies are applied outside-in along the
+/// first matching policy of each level, an inner value replacing an outer one.
+fn eval_max_lease(ps: &[PolicyM], chaddr: &[u8], server_ip: Ipv4Addr, inherited: Option<u64>) -> Option<u64> {
+    for p in ps {
+        if p.matches(chaddr, server_ip) {
+            let here = p.apply_max_lease.or(inherited);
+            return eval_max_lease(&p.policies, chaddr, server_ip, here);
+        }
+    }
+    inherited
 }
 
 #[derive(Clone, Debug, Serialize, Deserialize)]
@@ -229,6 +253,11 @@ impl ConfModel {
             }
         }
         s
+    }
+
+    /// The configured maximum lease time for this client on this interface, if any.
+    pub fn max_lease(&self, chaddr: &[u8], lan: &Lan) -> Option<u64> {
+        eval_max_lease(&self.policies, chaddr, lan.server_ip, None)
     }
 
     /// D(config, client, interface): the documented address set, or None if
@@ -504,6 +533,36 @@ fn nest(r: &mut Rng, subs: Vec<PolicyM>, net: Ipv4Addr, plen: u8, hs: &[u32], se
     outer
 }
 
+fn decorate(r: &mut Rng, p: &mut PolicyM, depth: usize) {
+    if r.chance(if depth == 0 { 0.25 } else { 0.1 }) {
+        p.apply_max_lease = Some(*r.pick(&[300u64, 301, 450, 600, 3600, 7200, 43200, 86400, 100_000, 200_000]));
+    }
+    if r.chance(if depth == 0 { 0.3 } else { 0.1 }) {
+        for _ in 0..r.range(1, 3) {
+            let rule: (&str, String) = match r.below(12) {
+                0 => ("server-id", format!("198.51.100.{}", r.range(1, 250))),
+                1 => ("server-id", "null".into()),
+                2 => ("lease-time", format!("{}", r.pick(&[1u64, 60, 299, 86401, 1_000_000]))),
+                3 => ("lease-time", "null".into()),
+                4 => ("netmask", "255.255.0.0".into()),
+                5 => ("routers", format!("[192.0.2.{}]", r.range(1, 250))),
+                6 => ("dns-servers", "[192.0.2.53, 192.0.2.54]".into()),
+                7 => ("domain-name", "\"example.org\"".into()),
+                8 => ("renewal-time", format!("{}", r.pick(&[1u64, 10, 1000]))),
+                9 => ("mtu", "1400".into()),
+                10 => ("address-request", format!("203.0.113.{}", r.range(1, 250))),
+                _ => ("message", "\"hello\"".into()),
+            };
+            if !p.apply_other.iter().any(|(k, _)| k == rule.0) {
+                p.apply_other.push((rule.0.to_string(), rule.1));
+            }
+        }
+    }
+    for q in p.policies.iter_mut() {
+        decorate(r, q, depth + 1);
+    }
+}
+
 pub fn gen_config(r: &mut Rng, lans: &[Lan], clients: &[ClientSpec], allow_policies: bool, tracers: bool) -> ConfModel {
     let mut addresses = vec![];
     let mut policies = vec![];
@@ -587,6 +646,13 @@ pub fn gen_config(r: &mut Rng, lans: &[Lan], clients: &[ClientSpec], allow_polic
                     ..Default::default()
                 });
             }
+        }
+    }
+    /* option rules and lease ceilings on some policies, including rules that name options
+     * the protocol machinery must stay in charge of (server identifier, lease time) */
+    if allow_policies {
+        for p in policies.iter_mut() {
+            decorate(r, p, 0);
         }
     }
     ConfModel {
